@@ -1,4 +1,4 @@
-HOOK_COMMITS = ["edb64ad"]
+HOOK_COMMITS = ["edb64ad", "e3ba4ea"]
 NOTES = ("Every check is ./check <ID> --tier quick|thorough (python3 stdlib driver): it regenerates harness/go.mod with a replace to /repo, "
          "compiles the property's test binary with -tags verif from /repo's working tree, runs rapid shards with seeds derived from VERIF_SEED, "
          "merges their statistics into evidence/<ID>.json and prints VIOLATION/KNOWN-FINDING lines. exit 2 = undecided (build failure, inconclusive).")
@@ -6,7 +6,7 @@ NOTES = ("Every check is ./check <ID> --tier quick|thorough (python3 stdlib driv
 META = {
  "C11": {
   "technique": "property-based testing (rapid) with an independent HASH_SLOT reference as oracle; native go fuzzing in the thorough tier",
-  "text": "Generated-input search over brace-heavy byte strings (200k keys quick, 20M + coverage-guided fuzz thorough) comparing all three slot computations of the tool with an independent bitwise CRC16/hash-tag implementation. Exploration, not proof: the function is pure and tiny, so dense sampling of the brace-arrangement space is the right level.",
+  "text": "Generated-input search over brace-heavy byte strings (200k keys quick, 20M + coverage-guided fuzz thorough) comparing all three slot computations of the tool with an independent bitwise CRC16/hash-tag implementation, plus the reverse direction: the key names the tool builds for a wanted slot (bidirectional marker/index/latest/commit/rdb keys for all 16384 slots of generated namespaces; the checkpoint key searched for generated target slot ranges) are hashed by the reference. Exploration, not proof: the function is pure and tiny, so dense sampling of the brace-arrangement space is the right level.",
   "note": "Trusts ref/hashslot (written from the cluster spec, unit-checked against published check values).",
  },
  "C12": {
